@@ -931,9 +931,34 @@ pub fn run_dacts(node: &mut Node, ds: &[DAct]) {
             DAct::DropOwnSlot(k) => {
                 let n = node.slots.borrow().len();
                 if let Some(j) = pick(*k, n) {
-                    let h = node.slots.borrow_mut().remove(j);
-                    // the Drop impl removes the instance from the model by (owner, target)
-                    drop(h);
+                    let t = node.slots.borrow()[j].target;
+                    let outsider = {
+                        let m = wd.model.borrow();
+                        m.objs[t as usize].st == St::Alive && !m.in_open_obligation(t)
+                    };
+                    let consuming = matches!(wd.cfg.mode, Mode::Consume | Mode::Elide | Mode::NoAdopt) || wd.cfg.allow_consume;
+                    if *k & 1 == 1 && wd.cfg.dtor_unwrap && outsider && consuming {
+                        // the destructor gives the handle up through try_unwrap
+                        // instead of dropping it: the stored handle becomes a handle
+                        // held by the running code, then the ordinary op applies
+                        // (Ok: the value is now a loose value; Err: the handle stays)
+                        label(lab::DTOR_TRY_UNWRAP);
+                        let h = node.slots.borrow_mut().remove(j);
+                        let owner = h.owner.get();
+                        h.owner.set(NONE);
+                        {
+                            let mut m = wd.model.borrow_mut();
+                            m.remove_slot_instance(owner, t);
+                            m.roots.push(t);
+                        }
+                        wd.roots.borrow_mut().push(h);
+                        let nr = wd.roots.borrow().len();
+                        crate::consume::apply(&Op::TryUnwrap(sel_for(nr - 1, nr)));
+                    } else {
+                        let h = node.slots.borrow_mut().remove(j);
+                        // the Drop impl removes the instance from the model by (owner, target)
+                        drop(h);
+                    }
                 }
             }
             DAct::DowngradeOwnSlot(k) => {
